@@ -420,6 +420,7 @@ TSys == /\ tl <= Len(Traces[tk])
              /\ \A g \in FaithfulGroups \ {"ksys"} : GroupVal(g)' = GroupVal(g)
              /\ mon' = MonSys(mon, Ev, f)
         /\ tl' = tl + 1
+        /\ tn' = 0
         /\ UNCHANGED <<tk, xm>>
 \* thread-private steps (no tracked effect, no system call) that lead up to the system call of a "sys" record
 TSysPrep == /\ tl <= Len(Traces[tk])
@@ -427,6 +428,8 @@ TSysPrep == /\ tl <= Len(Traces[tk])
             /\ pc[cur[TIdx(Ev.t)]] \notin SysLabels[Ev.op]
             /\ Step(cur[TIdx(Ev.t)])
             /\ FrameOK(<<>>)
+            /\ tn < MaxStepsPerEvent
+            /\ tn' = tn + 1
             /\ UNCHANGED <<tk, tl, xm, mon>>
 #! TRACENEXT
  \/ TSys \/ TSysPrep
